@@ -62,6 +62,14 @@ func c01EveryBlockLength(r *Run, fromEncoder bool) {
 					return
 				}
 				file = buf.Bytes()
+				// what an independent reader makes of the same bytes (C02)
+				if c, perr := parseContainer(file); perr != nil {
+					r.Fail(-1, "invalid-container", fmt.Sprintf("one block of %d one-byte rows (%s) written by the Encoder is not a well-formed container: %v", l, codec, perr), map[string]any{"codec": codec, "rows": l})
+					break
+				} else if l > 0 && (len(c.Blocks) != 1 || c.Blocks[0].Count != int64(l) || len(c.Blocks[0].Payload) != l) {
+					r.Fail(-1, "invalid-container", fmt.Sprintf("one block of %d one-byte rows (%s) written by the Encoder: an independent reader finds %d blocks", l, codec, len(c.Blocks)), map[string]any{"codec": codec, "rows": l})
+					break
+				}
 			} else {
 				payload := make([]byte, l)
 				for i := range payload {
